@@ -77,7 +77,7 @@ def run(prop, tier, replay=None):
     vpath = os.path.join(work, "vectors.ndjson")
     write_ndjson(vpath, vectors)
     rpath = os.path.join(work, "records.ndjson")
-    seeds = [s] if tier == "quick" else [s, s + 1, s + 2, s + 3]
+    seeds = [s] if tier == "quick" else [s, s + 1]
     records = []
     for sd in seeds:
         harness(["rules-replay", "--vectors", vpath, "--records", rpath, "--seed", sd])
